@@ -295,6 +295,10 @@ OnHEnter(mon, ev) ==
                 \* (needs the complete handle history, which only cooperative traces record)
                 \cup B(mon.strict /\ clean /\ ~A.stopReq /\ A.userStrong > 0, "C07", "actor stopped although referenced and never stopped/killed")
                 \cup B(A.runErr /\ ev.killed, "C08", "on_stop(killed=true) after an on_run error")
+                \* C07 "unless a kill or crash intervenes ... runs on_stop(killed=false)": with no kill() ever called the
+                \* one on_stop of a stopped / unreferenced actor is the graceful one, and it is not abandoned for another
+                \cup B(ev.killed /\ ~A.killStarted, "C07", "on_stop(killed=true) although no kill() was ever called")
+                \cup B(A.stopN > 0 /\ ~A.killStarted /\ A.panicIn = "", "C07", "a second on_stop was entered (the graceful one was abandoned) although no kill or crash intervened")
            m1 == UpdA(mon, a, [stopN |-> A.stopN + 1, stopKilled |-> ev.killed, inHook |-> "stop",
                                expectRun |-> FALSE])
        IN  AddBad(m1, b)
